@@ -159,8 +159,10 @@ func (n *Node) Stop() {
 	log.Info("Stopping Node")
 
 	if atomic.CompareAndSwapInt64(&n.running, 1, 0) {
-		n.Application.Stop()
+		// consensus first: a block committed while the application is already closed would be
+		// recorded in the consensus state with the empty hashes of a failed commit
 		n.Angine.Stop()
+		n.Application.Stop()
 	}
 }
 
